@@ -96,6 +96,11 @@ CHECKS = {
          "All interleavings of two 4-message connections (70), (thorough) three 3-message connections (1680), seeded sessions with 1..4 connections and up to 20 data messages of 0..60000 bytes, unknown ids, pings, UDP relay, agent disconnect mid-stream.",
          "Unique (connection, sequence) stamps make the histories unambiguous, so exactly-once and order are decided by comparison. The scripted agent frames messages like the real agent.",
          "DESIGN.md §5 C16"),
+ "C15": ("exploration",
+         "runtime monitoring: real http-proxy, ssh-proxy, copy and dns-proxy behind the dispatcher with forward directors to recording harness backends on loopback (raw HTTP backend, x/crypto SSH server, TCP/UDP transformers) plus a decoy listener; oracle = backend-received == client-sent (request line, header multimap, body; SSH credentials, channel requests and data; raw bytes), client-received == backend-sent, one attributed event per relayed request, decoy untouched",
+         "HTTP request sequences are delivered lock-step and pipelined with every single cut point (short streams) or sampled cuts; backend replies are written in seeded chunks; 1..3 concurrent clients. The backends answer with a transformation (xor) of what they received so a proxy echoing locally is told apart.",
+         "Allowed intermediary differences (header order across names, re-framing, name case) are not violations. connect() targets are observed through the decoy and the backends' own accept counts, not through a syscall tracer.",
+         "DESIGN.md §5 C15"),
 }
 
 NOT_YET = {
